@@ -31,6 +31,7 @@ def runs(tier, seed):
     if tier == "quick":
         return [dict(n=3, dims=1, grid=4, kind="generic", depth=12, cap=None),
                 dict(n=4, dims=1, grid=3, kind="generic", depth=5, cap=None),
+                dict(n=4, dims=1, grid=3, kind="peaked", depth=6, cap=None, full_only=True),
                 dict(n=3, dims=2, grid=3, kind="seeded", depth=4, cap=None, outlier=0.2)]
     return [dict(n=3, dims=1, grid=4, kind="generic", depth=12, cap=None),
             dict(n=3, dims=2, grid=3, kind="seeded", depth=12, cap=None, outlier=0.2),
@@ -40,7 +41,10 @@ def runs(tier, seed):
 
 def run_one(chk, r, seed, pid="C06", make_inv=make_invariant, grammar_kw=None):
     data = oracle.make_data(r["n"], dims=r["dims"], grid=r["grid"], kind=r["kind"], seed=seed, outlier_prob=r.get("outlier", 0.0))
-    g = editbfs.Grammar(data, **(grammar_kw or {}))
+    gk = dict(grammar_kw or {})
+    if r.get("full_only"):
+        gk["moves_on_full_only"] = True
+    g = editbfs.Grammar(data, **gk)
     res = editbfs.bfs(g, make_inv(data), r["depth"], max_states=r["cap"])
     chk.n_states_extra += res["states"]
     chk.transitions += res["transitions"]
@@ -82,7 +86,7 @@ def replay(path, make_inv=make_invariant):
     rp = body["replay"]
     r = rp["search"]
     data = oracle.make_data(r["n"], dims=r["dims"], grid=r["grid"], kind=r["kind"], seed=rp.get("seed", 0), outlier_prob=r.get("outlier", 0.0))
-    g = editbfs.Grammar(data)
+    g = editbfs.Grammar(data, moves_on_full_only=bool(r.get("full_only")))
     hist = [_tup(e) for e in rp["history"]]
     t = g.rebuild(hist)
     ev = _tup(rp["event"])
